@@ -84,8 +84,8 @@ Fixpoint sse_process (ls : list bytes) (data : bytes) (etype : bytes) : list sse
           | _ =>
               let value := match v with
                            | None => []
-                           | Some (32 :: r) => r           (* one leading space is dropped *)
-                           | Some r => r
+                           | Some [] => []
+                           | Some (c :: r) => if c =? 32 then r else c :: r   (* one leading space is dropped *)
                            end in
               if bytes_eqb field f_data then sse_process ls' (data ++ value ++ [10]) etype
               else if bytes_eqb field f_event then sse_process ls' data value
